@@ -313,7 +313,8 @@ def make_kw(w, rng):
             if rng.random() < 0.5:
                 kw["object_refs"] = [f, m.Directory(path="/d", contains_refs=[f])]
             else:
-                kw["objects"] = {"0": {"type": "file", "name": "f", "extensions": f_ext}, "1": m.Directory(path="/d", contains_refs=["0"], _valid_refs={"0": "file"})}
+                fid = "file--11111111-1111-4111-8111-111111111111"
+                kw["objects"] = {"0": {"type": "file", "id": fid, "name": "f", "extensions": f_ext}, "1": m.Directory(path="/d", contains_refs=[fid])}
         cls = m.ObservedData
     return cls, kw
 
